@@ -129,11 +129,18 @@ Record dinv (fs : fsys) (st : lstate) : Prop := {
 
 Definition extends (st : lstate) (evs : list event) : Prop := exists ext, evs = events st ++ ext.
 
+(* what an error leaves behind: the completed module top levels are still distinct, each is still
+   recorded as loaded, none of them is a module that was being loaded when the call started *)
+Definition errpost (st s : lstate) : Prop :=
+  NoDup (mtrace s) /\
+  (forall g, In g (mtrace s) -> has_key g (loaded s) /\ ~ In g (stack st)) /\
+  extends st (events s).
+
 Definition dpost {A} (fs : fsys) (st : lstate) (r : res (lstate * A)) : Prop :=
   match r with
   | Ok (st', _) => dinv fs st' /\ stack st' = stack st /\
                    (forall k, has_key k (loaded st) -> has_key k (loaded st')) /\ extends st (events st')
-  | Err _ tr => NoDup (mtrace_of tr) /\ extends st tr
+  | Err _ s => errpost st s
   | Fuel => False
   end.
 
@@ -146,8 +153,44 @@ Proof. intro st; exists []; rewrite app_nil_r; reflexivity. Qed.
 Lemma extends_trans : forall a b evs, extends a (events b) -> extends b evs -> extends a evs.
 Proof. intros a b evs [e1 H1] [e2 H2]. exists (e1 ++ e2). rewrite H2, H1, app_assoc. reflexivity. Qed.
 
-Lemma dinv_err : forall fs st, dinv fs st -> NoDup (mtrace_of (events st)) /\ extends st (events st).
-Proof. intros fs st H. split; [apply (d_tnodup _ _ H) | apply extends_refl]. Qed.
+Lemma dinv_err : forall fs st, dinv fs st -> errpost st st.
+Proof.
+  intros fs st H. split; [apply (d_tnodup _ _ H)|]. split; [apply (d_towner _ _ H) | apply extends_refl].
+Qed.
+
+Lemma errpost_trans : forall a b s, stack b = stack a -> extends a (events b) -> errpost b s -> errpost a s.
+Proof.
+  intros a b s Hs He (Hn & Ht & Hx). split; [exact Hn|]. split.
+  - intros g Hg. destruct (Ht g Hg) as [H1 H2]. rewrite Hs in H2. auto.
+  - eapply extends_trans; eauto.
+Qed.
+
+Lemma lookup_remove : forall A k f (l : list (key * A)),
+  lookup k (remove_key f l) = if key_eqb k f then None else lookup k l.
+Proof.
+  intros A k f l; induction l as [|[k' v] r IH]; cbn; [destruct (key_eqb k f); reflexivity|].
+  destruct (key_eqb f k') eqn:E1.
+  - apply key_eqb_eq in E1; subst k'. rewrite IH. destruct (key_eqb k f) eqn:E2; reflexivity.
+  - cbn. rewrite IH. destruct (key_eqb k k') eqn:E3; [| reflexivity].
+    apply key_eqb_eq in E3; subst k'. destruct (key_eqb k f) eqn:E4; [| reflexivity].
+    apply key_eqb_eq in E4; subst. rewrite key_eqb_refl in E1; discriminate.
+Qed.
+
+Lemma has_key_remove : forall A k f (l : list (key * A)), k <> f -> has_key k l -> has_key k (remove_key f l).
+Proof.
+  unfold has_key; intros A k f l Hne H. rewrite lookup_remove. apply key_eqb_neq in Hne. rewrite Hne. exact H.
+Qed.
+
+(* forgetting the module that was being loaded keeps the error facts, now relative to the caller *)
+Lemma errpost_forget : forall st file s,
+  errpost {| loaded := loaded st; stack := file :: stack st; base := base st; ns := ns st; events := events st |} s ->
+  errpost st (forget file s).
+Proof.
+  intros st file s (Hn & Ht & Hx). unfold forget. split; [exact Hn|]. split; [| exact Hx].
+  intros g Hg. destruct (Ht g Hg) as [H1 H2]. cbn in H2. split.
+  - cbn. apply has_key_remove; [intro; subst; apply H2; left; reflexivity | exact H1].
+  - intro Hin. apply H2. right; exact Hin.
+Qed.
 
 Lemma go_mod_d : forall fs root ld n imps s acc,
   dgood fs ld n -> dinv fs s -> (n + length (stack s) > length (all_files fs))%nat ->
@@ -163,7 +206,7 @@ Proof.
     destruct (go_mod fs root ld r s' _) as [[s2 a2]| |]; cbn in *; auto.
     + destruct Hr as (Hi2 & Hs2 & Hl2 & He2). split; [exact Hi2|]. split; [congruence|].
       split; [auto | eapply extends_trans; eauto].
-    + destruct Hr as [Hn He2]. split; [exact Hn | eapply extends_trans; eauto].
+    + eapply errpost_trans; eauto.
 Qed.
 
 Lemma compile_d : forall fs root ld n file eimp m st,
@@ -189,10 +232,31 @@ Proof.
     - intros g Hg. destruct (d_towner _ _ Hinv g Hg) as [Hk Hnk]. split; [apply has_key_cons; exact Hk|].
       intros [<-|Hin]; [unfold has_key in Hk; congruence | contradiction]. }
   assert (Hf1 : (n + length (stack st1) > length (all_files fs))%nat) by (cbn; lia).
+  (* an error below: this module is forgotten on the way out *)
+  assert (Hforget : forall s, errpost st1 s -> errpost st (forget file s)).
+  { intros s (Hn & Ht & Hx). unfold forget. split; [exact Hn|]. split; [| exact Hx].
+    intros g Hg. destruct (Ht g Hg) as [H1 H2]. cbn in H2. split.
+    - cbn. apply has_key_remove; [intro; subst; apply H2; left; reflexivity | exact H1].
+    - intro Hin. apply H2. right; exact Hin. }
   pose proof (go_mod_d fs root ld n (m_imports m) st1 ([], []) Hld Hinv1 Hf1) as Hg.
-  destruct (go_mod fs root ld (m_imports m) st1 ([], [])) as [[st2 acc]| |]; cbn in Hg; [| exact Hg | contradiction].
+  destruct (go_mod fs root ld (m_imports m) st1 ([], [])) as [[st2 acc]| |]; cbn in Hg;
+    [| apply Hforget; exact Hg | contradiction].
   destruct Hg as (Hi2 & Hs & Hl & He).
-  set (ev := {| ev_file := file; ev_key := i_path eimp; ev_aliases := fst acc; ev_known := _; ev_ns := _ |}).
+  assert (Herr2 : errpost st1 st2).
+  { split; [apply (d_tnodup _ _ Hi2)|]. split; [| exact He].
+    intros g Hg. destruct (d_towner _ _ Hi2 g Hg) as [H1 H2]. rewrite Hs in H2. auto. }
+  destruct (m_fault m =? 1); [apply Hforget; exact Herr2|].
+  destruct (m_fault m =? 2).
+  { (* it starts and raises: seen, not completed *)
+    apply Hforget. destruct Herr2 as (Hn & Ht & [e Hx]).
+    assert (Hmt : forall ev0, ev_done ev0 = false -> mtrace_of (events st2 ++ [ev0]) = mtrace st2).
+    { intros ev0 Hd. rewrite mtrace_of_app. unfold mtrace_of at 2, is_mod_event. cbn. rewrite Hd, andb_false_r. cbn.
+      rewrite app_nil_r. reflexivity. }
+    unfold errpost, mtrace. cbn [events loaded]. rewrite Hmt by reflexivity.
+    split; [exact Hn|]. split; [exact Ht|]. exists (e ++ [{| ev_file := file; ev_key := i_path eimp; ev_aliases := fst acc;
+      ev_known := map d_name (m_defs m) ++ snd acc; ev_ns := ns st2; ev_done := false |}]).
+    rewrite Hx. cbn. rewrite app_assoc. reflexivity. }
+  set (ev := {| ev_file := file; ev_key := i_path eimp; ev_aliases := fst acc; ev_known := _; ev_ns := _; ev_done := true |}).
   assert (Hmod : is_mod_event ev = true).
   { unfold is_mod_event, ev; cbn. destruct (key_eqb (i_path eimp) []) eqn:Ek; [apply key_eqb_eq in Ek; contradiction | reflexivity]. }
   assert (Hmt : mtrace_of (events st2 ++ [ev]) = mtrace st2 ++ [file]).
@@ -203,17 +267,21 @@ Proof.
   { rewrite Hmt. apply NoDup_snoc0; [apply (d_tnodup _ _ Hi2) | exact Hnotin]. }
   assert (Hext : extends st (events st2 ++ [ev])).
   { destruct He as [e He]. exists (e ++ [ev]). rewrite He. cbn. rewrite app_assoc. reflexivity. }
-  match goal with |- context [bind_exports ?a ?b ?c] => destruct (bind_exports a b c) end; cbn; [| split; assumption].
-  split; [| split; [rewrite Hs; reflexivity | split; [| exact Hext]]].
-  - split.
-    + cbn. rewrite Hs. cbn. apply (d_nodup _ _ Hinv).
-    + cbn. rewrite Hs. cbn. apply (d_incl _ _ Hinv).
-    + cbn. rewrite Hs. cbn. intros k Hk. apply Hl. cbn. apply has_key_cons. apply (d_loaded _ _ Hinv); exact Hk.
-    + exact Hnd.
-    + unfold mtrace; cbn [events stack loaded]. rewrite Hmt, Hs. cbn [tl stack]. intros g Hg. apply in_app_or in Hg as [Hg|[<-|[]]].
-      * destruct (d_towner _ _ Hi2 g Hg) as [Hk Hnk]. split; [exact Hk|]. intro Hin. apply Hnk. rewrite Hs. right; exact Hin.
-      * split; [apply Hl; cbn; unfold has_key; rewrite lookup_cons_eq; discriminate | exact Hni].
-  - intros k Hk. apply Hl. cbn. apply has_key_cons; exact Hk.
+  assert (Hown : forall g, In g (mtrace st2 ++ [file]) -> has_key g (loaded st2) /\ ~ In g (stack st)).
+  { intros g Hg. apply in_app_or in Hg as [Hg|[<-|[]]].
+    - destruct (d_towner _ _ Hi2 g Hg) as [Hk Hnk]. split; [exact Hk|]. intro Hin. apply Hnk. rewrite Hs. right; exact Hin.
+    - split; [apply Hl; cbn; unfold has_key; rewrite lookup_cons_eq; discriminate | exact Hni]. }
+  match goal with |- context [bind_exports ?a ?b ?c] => destruct (bind_exports a b c) end; cbn.
+  - split; [| split; [rewrite Hs; reflexivity | split; [| exact Hext]]].
+    + split.
+      * cbn. rewrite Hs. cbn. apply (d_nodup _ _ Hinv).
+      * cbn. rewrite Hs. cbn. apply (d_incl _ _ Hinv).
+      * cbn. rewrite Hs. cbn. intros k Hk. apply Hl. cbn. apply has_key_cons. apply (d_loaded _ _ Hinv); exact Hk.
+      * exact Hnd.
+      * unfold mtrace; cbn [events stack loaded]. rewrite Hmt, Hs. cbn [tl stack]. exact Hown.
+    + intros k Hk. apply Hl. cbn. apply has_key_cons; exact Hk.
+  - (* register_exports failed after the body ran: the module IS initialised and stays loaded *)
+    unfold errpost, mtrace. cbn [events loaded]. rewrite Hmt. split; [rewrite <- Hmt; exact Hnd|]. split; [exact Hown | exact Hext].
 Qed.
 
 Lemma load_step_d : forall fs root ld n, dgood fs ld n -> dgood fs (load_step fs root ld) (S n).
@@ -249,7 +317,7 @@ Lemma entry_go_d : forall fs root n imps s acc orig,
   dinv fs s -> (n + length (stack s) > length (all_files fs))%nat ->
   match entry_go fs root n imps s acc orig with
   | Ok (s2, _) => dinv fs s2 /\ stack s2 = stack s /\ extends s (events s2)
-  | Err _ tr => NoDup (mtrace_of tr) /\ extends s tr
+  | Err _ e => errpost s e
   | Fuel => False
   end.
 Proof.
@@ -263,8 +331,8 @@ Proof.
       pose proof (IH s' acc' orig' Hinv' Hf') as Hr.
       destruct (entry_go fs root n r s' acc' orig') as [[s2 a2]| |]; auto.
       * destruct Hr as (Hi2 & Hs2 & He2). split; [exact Hi2|]. split; [congruence | eapply extends_trans; eauto].
-      * destruct Hr as [Hn He2]. split; [exact Hn | eapply extends_trans; eauto].
-    + split; [apply (d_tnodup _ _ Hinv') | exact He].
+      * eapply errpost_trans; eauto.
+    + eapply errpost_trans; [exact Hs | exact He | exact (dinv_err fs s' Hinv')].
 Qed.
 
 Lemma init_dinv : forall fs root, dinv fs {| loaded := []; stack := []; base := root; ns := []; events := [] |}.
@@ -296,7 +364,7 @@ Lemma run_input_d : forall fs root fuel name m ss,
   dinv fs (ss_st ss) -> stack (ss_st ss) = [] -> (fuel > length (all_files fs))%nat ->
   match run_input fs root fuel name m ss with
   | Ok (ss', _) => dinv fs (ss_st ss') /\ stack (ss_st ss') = [] /\ extends (ss_st ss) (events (ss_st ss'))
-  | Err _ tr => NoDup (mtrace_of tr) /\ extends (ss_st ss) tr
+  | Err _ s => errpost (ss_st ss) s
   | Fuel => False
   end.
 Proof.
@@ -305,7 +373,7 @@ Proof.
   rewrite Hstk in Hg. cbn in Hg. specialize (Hg ltac:(lia)).
   destruct (entry_go fs root fuel (m_imports m) (ss_st ss) (ss_names ss) []) as [[st acc]| |]; auto.
   destruct Hg as (Hi & Hs & He). cbn.
-  set (ev := {| ev_file := name; ev_key := []; ev_aliases := fst acc; ev_known := _; ev_ns := _ |}).
+  set (ev := {| ev_file := name; ev_key := []; ev_aliases := fst acc; ev_known := _; ev_ns := _; ev_done := true |}).
   assert (Hmt : mtrace_of (events st ++ [ev]) = mtrace st).
   { rewrite mtrace_of_app. unfold mtrace_of at 2. cbn. rewrite app_nil_r. reflexivity. }
   split; [| split; [reflexivity|]].
@@ -318,6 +386,20 @@ Proof.
   - destruct He as [e He]. exists (e ++ [ev]). cbn. rewrite He, app_assoc. reflexivity.
 Qed.
 
+(* the session record is put back on the error path too (Extracted/ModulesTables.v, from repl.rs):
+   what a failing input initialised stays known *)
+Lemma after_error_d : forall fs root ss s, errpost (ss_st ss) s ->
+  dinv fs (ss_st (after_error root ss s)) /\ stack (ss_st (after_error root ss s)) = [] /\
+  events (ss_st (after_error root ss s)) = events s.
+Proof.
+  intros fs root ss s (Hn & Ht & _). unfold after_error. cbn. split; [| auto]. split; cbn.
+  - constructor.
+  - intros k [].
+  - intros k [].
+  - exact Hn.
+  - intros g Hg. split; [apply (Ht g Hg) | intros []].
+Qed.
+
 Lemma run_session_d : forall fs root fuel inputs ss,
   dinv fs (ss_st ss) -> stack (ss_st ss) = [] -> (fuel > length (all_files fs))%nat ->
   let rs := run_session fs root fuel inputs ss in
@@ -326,14 +408,18 @@ Proof.
   intros fs root fuel inputs; induction inputs as [|[name m] r IH]; intros ss Hinv Hstk Hf; cbn.
   - split; [intros x [] | rewrite app_nil_r; apply (d_tnodup _ _ Hinv)].
   - pose proof (run_input_d fs root fuel name m ss Hinv Hstk Hf) as Hi.
-    destruct (run_input fs root fuel name m ss) as [[ss' ev]| |]; [| | contradiction].
+    destruct (run_input fs root fuel name m ss) as [[ss' ev]|e s|]; [| | contradiction].
     + destruct Hi as (Hinv' & Hstk' & [ext He]).
       destruct (IH ss' Hinv' Hstk' Hf) as [Hnf Hnd]. cbn. rewrite He, skipn_app_length.
       split.
       * intros x [<-|Hx]; [discriminate | apply Hnf; exact Hx].
       * rewrite He in Hnd. rewrite <- app_assoc in Hnd. exact Hnd.
-    + destruct Hi as (Hnd & [ext He]). cbn. rewrite He, skipn_app_length, app_nil_r.
-      split; [intros x [<-|[]]; discriminate | rewrite <- He; exact Hnd].
+    + destruct (after_error_d fs root ss s Hi) as (Hinv' & Hstk' & Hev).
+      destruct Hi as (_ & _ & [ext He]).
+      destruct (IH (after_error root ss s) Hinv' Hstk' Hf) as [Hnf Hnd]. cbn. rewrite He, skipn_app_length.
+      split.
+      * intros x [<-|Hx]; [discriminate | apply Hnf; exact Hx].
+      * rewrite Hev, He in Hnd. rewrite <- app_assoc in Hnd. exact Hnd.
 Qed.
 
 Lemma session_init_once_lemma : forall fs root fuel inputs, (fuel >= fuel_bound fs)%nat ->
@@ -453,7 +539,7 @@ Definition errinv (tr : list event) : Prop :=
 Definition vpost (cur : fpath) (i : import) (st : lstate) (r : res (lstate * lres)) : Prop :=
   match r with
   | Ok (st', lr) => frame st st' /\ lr = lres_spec cur i /\ (is_std (i_path i) = false -> loaded_as cur i st')
-  | Err _ tr => errinv tr
+  | Err _ s => errinv (events s)
   | Fuel => True
   end.
 
@@ -616,7 +702,7 @@ Lemma go_mod_v : forall ld file m, vgood ld -> reachable fs E file -> find_file 
   | Ok (s2, acc2) => frame s s2 /\
       (forall j, In j (m_imports m) -> is_std (i_path j) = false -> loaded_as file j s2) /\
       (no_std_imports m -> nonempty_symbols m -> names_spec file (m_imports m) acc2)
-  | Err _ tr => errinv tr
+  | Err _ s => errinv (events s)
   | Fuel => True
   end.
 Proof.
@@ -711,6 +797,8 @@ Proof.
     apply target_meaning in Htj as [fmj Hmj].
     destruct (meaning_cases _ _ _ _ _ _ Hmj) as (Hstdj & _).
     destruct (Hall j Hj Hstdj) as (g' & fm' & inf & Hg' & Hin & _). fold root in Hmj. congruence. }
+  destruct (m_fault m =? 1); [exact (inv_errinv st2 Hi2)|].
+  destruct (m_fault m =? 2); [cbn; apply (snoc_errinv st2 file); auto|].
   destruct (bind_exports eimp (pub_names m) (write_defs file m (ns st2))) as [s2|] eqn:Hbind; cbn;
     [| apply (snoc_errinv st2 file); auto].
   set (ev := {| ev_file := file; ev_key := i_path eimp; ev_aliases := fst acc; ev_known := _; ev_ns := _ |}).
@@ -820,7 +908,7 @@ Lemma entry_go_v : forall n me, find_file fs E = Some me ->
   | Ok (s2, acc2) => frame s s2 /\
       (forall j, In j (m_imports me) -> is_std (i_path j) = false -> loaded_as E j s2) /\
       (no_std_imports me -> nonempty_symbols me -> names_spec E (m_imports me) acc2)
-  | Err _ tr => errinv tr
+  | Err _ s => errinv (events s)
   | Fuel => True
   end.
 Proof.
@@ -927,11 +1015,11 @@ Proof.
 Qed.
 
 (* whatever the outcome: what ran, ran once, is reachable, and ran after its dependencies *)
-Lemma run_err_trace : forall fuel e tr, run fs E fuel = Err e tr ->
-  let t := map ev_file tr in
+Lemma run_err_trace : forall fuel e s, run fs E fuel = Err e s ->
+  let t := map ev_file (events s) in
   NoDup t /\ (forall f, In f t -> reachable fs E f) /\ postorder fs E t.
 Proof.
-  intros fuel e tr. unfold run. fold root.
+  intros fuel e s0. unfold run. fold root.
   destruct (find_file fs E) as [me|] eqn:Hme.
   - pose proof (entry_go_v fuel me Hme (m_imports me) [] (init_state E) ([], []) [] eq_refl init_inv eq_refl
                   (fun j Hj => match Hj with end) (fun _ _ => names_spec_nil _)) as Hg.
@@ -1391,6 +1479,7 @@ Proof.
                 (fun j Hj => match Hj with end) (fun _ _ => names_spec_nil _)) as Hgv.
   destruct (go_mod fs root ld (m_imports m) st1 ([], [])) as [[st2 acc]| |]; auto.
   destruct Hgb as (Hb2 & Hmono2 & Hqall). destruct Hgv as ((Hi2 & Hs2 & _ & Hm2 & _) & Hall & _).
+  destruct (m_fault m =? 1); [exact I|]. destruct (m_fault m =? 2); [exact I|].
   destruct (bind_exports eimp (pub_names m) (write_defs file m (ns st2))) as [s2|] eqn:Hbind; cbn in *; auto.
   destruct Hcv as ((Hinv' & _) & _).
   set (s1 := write_defs file m (ns st2)) in *.
@@ -1570,10 +1659,10 @@ Lemma compile_e : forall ld cur mc i g fm mg st eimp,
   meaning fs root cur i = Some (g, fm) -> i_path i <> [] -> inv st -> base st = dir_of cur -> ninv st ->
   ~ In g (stack st) -> lookup g (loaded st) = None -> find_file fs g = Some mg ->
   i_form eimp = fm -> i_path eimp <> [] -> lres_of eimp = lres_spec cur i ->
-  (forall l s, fm = FSymbols l -> In s l -> In s (pub_names mg)) ->
+  (forall l s, fm = FSymbols l -> In s l -> In s (pub_names mg)) -> m_fault mg = 0 ->
   epost st (compile fs root ld g eimp mg st).
 Proof.
-  intros ld cur mc i g fm mg st eimp Hv He Hr Hmc Hi Hmean Hne Hinv Hb Hn Emem El Hmg Hef Hep Hlr Hsy.
+  intros ld cur mc i g fm mg st eimp Hv He Hr Hmc Hi Hmean Hne Hinv Hb Hn Emem El Hmg Hef Hep Hlr Hsy Hflt.
   pose proof (push_inv cur mc i g fm mg st (last_seg (i_path eimp)) Hr Hmc Hi Hmean Hinv Emem El Hmg) as Hinv1.
   unfold compile.
   set (info := {| mi_file := g; mi_exports := pub_names mg; mi_name := _ |}) in *.
@@ -1590,6 +1679,7 @@ Proof.
                 (fun j Hj => match Hj with end) (fun _ _ => names_spec_nil _)) as Hgv.
   destruct (go_mod fs root ld (m_imports mg) st1 ([], [])) as [[st2 acc]| |]; cbn in Hge; auto.
   destruct Hge as [Hn2 Hmono2]. destruct Hgv as ((Hi2 & Hs2 & _ & Hm2 & _) & _).
+  rewrite Hflt. cbn [N.eqb Pos.eqb].
   set (s1 := write_defs g mg (ns st2)).
   destruct (bind_exports_some eimp (pub_names mg) s1) as (s2 & Hs2' & Hmono3).
   { intros n Hin. destruct (pub_names_defs _ _ Hin) as (d & Hd & <-). apply write_defs_binds; exact Hd. }
@@ -1615,7 +1705,7 @@ Proof.
   destruct (is_std p) eqn:Estd.
   { destruct p; [discriminate|]. cbn. split; [exact Hn | intros g Hg; exact Hg]. }
   assert (Hstd : is_std (i_path i) = false) by (rewrite Ep; exact Estd).
-  destruct (HC cur mc i Hr Hmc Hi Hstd) as (Hne & g & fm & mg & Hmean & Hmg & Hsy). fold root in Hmean.
+  destruct (HC cur mc i Hr Hmc Hi Hstd) as (Hne & g & fm & mg & Hmean & Hmg & Hflt & Hsy). fold root in Hmean.
   destruct p as [|x p']; [congruence|].
   rewrite Hb. pose proof Hmean as Hmean0. unfold meaning in Hmean. rewrite Hstd, Ep in Hmean.
   destruct (resolve_fb fs root (dir_of cur) (x :: p')) as [[[file actual] sym]|] eqn:Er; [| discriminate].
@@ -1680,10 +1770,10 @@ Lemma init_once_lemma : forall fs E fuel evs, run fs E fuel = Ok evs ->
   NoDup tr /\ (forall f, In f tr <-> reachable fs E f) /\ postorder fs E tr /\ (exists l, tr = l ++ [E]).
 Proof. intros fs E fuel evs Hrun. eapply run_trace; eauto. Qed.
 
-Lemma at_most_once_on_error_lemma : forall fs E fuel e tr, run fs E fuel = Err e tr ->
-  let t := map ev_file tr in
+Lemma at_most_once_on_error_lemma : forall fs E fuel e s, run fs E fuel = Err e s ->
+  let t := map ev_file (events s) in
   NoDup t /\ (forall f, In f t -> reachable fs E f) /\ postorder fs E t.
-Proof. intros fs E fuel e tr H. eapply run_err_trace; eauto. Qed.
+Proof. intros fs E fuel e s H. eapply run_err_trace; eauto. Qed.
 
 Lemma cycle_never_ok_lemma : forall fs E fuel f,
   reachable fs E f -> path_plus fs E f f -> forall evs, run fs E fuel <> Ok evs.
@@ -1707,7 +1797,8 @@ Proof.
   split; [destruct (i_path i); [discriminate | discriminate]|].
   destruct (meaning fs (dir_of E) f i) as [[g fm]|]; [| discriminate].
   destruct (find_file fs g) as [mg|] eqn:Eg; [| discriminate].
-  exists g, fm, mg. split; [reflexivity|]. split; [exact Eg|].
+  apply andb_true_iff in Hi as [Hflt Hi]. apply N.eqb_eq in Hflt.
+  exists g, fm, mg. split; [reflexivity|]. split; [exact Eg|]. split; [exact Hflt|].
   intros l s Hf Hs. rewrite Hf in Hi. rewrite forallb_forall in Hi. apply mem_id_true_In, Hi, Hs.
 Qed.
 
@@ -1902,7 +1993,7 @@ Lemma nonvacuous_lemma :
                map ev_file evs = [[19]; [10]; [11]; [12]; [9]]) /\
   clean_b w_cycle6 [] = true /\
   reachable w_cycle6 E9 [11] /\ path_plus w_cycle6 E9 [11] [11] /\
-  (exists tr, run w_cycle6 E9 (fuel_bound w_cycle6) = Err ECircular tr /\ map ev_file tr = [[19]]).
+  (exists tr, run w_cycle6 E9 (fuel_bound w_cycle6) = Err ECircular tr /\ map ev_file (events tr) = [[19]]).
 Proof.
   split; [reflexivity|]. split; [reflexivity|]. split; [reflexivity|].
   split. { eexists. split; vm_compute; reflexivity. }
